@@ -89,6 +89,17 @@ type TableSpec struct {
 	PKReversed bool `json:"pk_reversed,omitempty"`
 }
 
+// reservedNames are column names that are reserved words: they are legal only back-quoted.
+var reservedNames = map[string]bool{"key": true, "desc": true, "order": true, "group": true}
+
+// Q renders a column name for SQL text: reserved words are back-quoted.
+func Q(name string) string {
+	if reservedNames[strings.ToLower(name)] {
+		return "`" + name + "`"
+	}
+	return name
+}
+
 // DDL renders CREATE TABLE for the given name.
 func (t TableSpec) DDL(name string) string {
 	var parts []string
@@ -289,6 +300,10 @@ func DrawTable(t *rapid.T, idx int) TableSpec {
 	for i := 0; i < n; i++ {
 		c := rapid.SampledFrom(pool).Draw(t, "colType")
 		c.Name = fmt.Sprintf("c%d", i)
+		if i >= 1 && rapid.IntRange(0, 5).Draw(t, "reservedName") == 0 {
+			// a reserved word as column name (legal when back-quoted): one of each per table at most
+			c.Name = []string{"key", "desc", "order", "group"}[i%4]
+		}
 		c.Nullable = rapid.IntRange(0, 2).Draw(t, "nullable") > 0
 		if rapid.IntRange(0, 3).Draw(t, "hasDefault") == 0 && c.Base != "TEXT" && c.Base != "BLOB" {
 			cc := c
@@ -430,6 +445,33 @@ func (b *sqlBuilder) existingKey(tb TableSpec, label string) []Lit {
 	return r[:len(tb.PK)]
 }
 
+// usable reports whether a column may be referenced in a SET list or a WHERE clause: while the image queries
+// restore such expressions without back quotes (known finding C16-K2: same restore flags), reserved-word
+// columns are kept out of them; they still occur in tables, INSERT column lists and images.
+func (b *sqlBuilder) usable(c ColSpec) bool {
+	if b.forceParamStrings && reservedNames[strings.ToLower(c.Name)] {
+		Excluded["ReservedNameInExpr"]++
+		return false
+	}
+	return true
+}
+
+func (b *sqlBuilder) usableCols(cols []ColSpec) []ColSpec {
+	var out []ColSpec
+	for _, c := range cols {
+		if !b.forceParamStrings || !reservedNames[strings.ToLower(c.Name)] {
+			out = append(out, c)
+		}
+	}
+	if len(out) != len(cols) {
+		Excluded["ReservedNameInExpr"]++
+	}
+	if len(out) == 0 {
+		return cols
+	}
+	return out
+}
+
 // cond writes a condition; shape is appended to *shape.
 func (b *sqlBuilder) cond(tb TableSpec, depth int, shape *[]string) {
 	kind := rapid.SampledFrom([]string{"pk-eq", "pk-eq", "pk-eq", "pk-in", "cmp", "between", "and", "or", "paren", "like", "isnull"}).Draw(b.t, "cond")
@@ -460,24 +502,24 @@ func (b *sqlBuilder) cond(tb TableSpec, depth int, shape *[]string) {
 		b.sb.WriteString(")")
 	case "cmp":
 		c := tb.Cols[rapid.IntRange(0, len(tb.Cols)-1).Draw(b.t, "cmpCol")]
-		if c.Base == "BLOB" || c.Base == "TEXT" || c.Base == "VARBINARY" {
+		if c.Base == "BLOB" || c.Base == "TEXT" || c.Base == "VARBINARY" || !b.usable(c) {
 			c = tb.Cols[0]
 		}
 		op := rapid.SampledFrom([]string{"=", "<>", "<", "<=", ">", ">="}).Draw(b.t, "op")
-		b.sb.WriteString(c.Name + " " + op + " ")
+		b.sb.WriteString(Q(c.Name) + " " + op + " ")
 		cc := c
 		cc.Nullable = false
 		b.val(b.columnValue(tb, cc), true)
 	case "between":
 		c := tb.Cols[0]
 		if c.Base == "VARCHAR" {
-			b.sb.WriteString(c.Name + " BETWEEN ")
+			b.sb.WriteString(Q(c.Name) + " BETWEEN ")
 			b.val(Lit{Kind: "str", S: "a"}, true)
 			b.sb.WriteString(" AND ")
 			b.val(Lit{Kind: "str", S: "l"}, true)
 		} else {
 			lo := int64(rapid.IntRange(0, 4).Draw(b.t, "lo"))
-			b.sb.WriteString(c.Name + " BETWEEN ")
+			b.sb.WriteString(Q(c.Name) + " BETWEEN ")
 			b.val(Lit{Kind: "int", I: lo}, true)
 			b.sb.WriteString(" AND ")
 			b.val(Lit{Kind: "int", I: lo + int64(rapid.IntRange(0, 3).Draw(b.t, "span"))}, true)
@@ -493,7 +535,7 @@ func (b *sqlBuilder) cond(tb TableSpec, depth int, shape *[]string) {
 	case "like":
 		var sc *ColSpec
 		for i := range tb.Cols {
-			if tb.Cols[i].Base == "VARCHAR" || tb.Cols[i].Base == "CHAR" {
+			if (tb.Cols[i].Base == "VARCHAR" || tb.Cols[i].Base == "CHAR") && b.usable(tb.Cols[i]) {
 				sc = &tb.Cols[i]
 			}
 		}
@@ -502,11 +544,14 @@ func (b *sqlBuilder) cond(tb TableSpec, depth int, shape *[]string) {
 			b.val(b.existingKey(tb, "likefallback")[0], true)
 			return
 		}
-		b.sb.WriteString(sc.Name + " LIKE ")
+		b.sb.WriteString(Q(sc.Name) + " LIKE ")
 		b.val(Lit{Kind: "str", S: rapid.SampledFrom([]string{"%", "a%", "%t", "k_", "t%"}).Draw(b.t, "pat")}, true)
 	case "isnull":
 		c := tb.Cols[rapid.IntRange(0, len(tb.Cols)-1).Draw(b.t, "nullCol")]
-		b.sb.WriteString(c.Name + " IS ")
+		if !b.usable(c) {
+			c = tb.Cols[0]
+		}
+		b.sb.WriteString(Q(c.Name) + " IS ")
 		if rapid.Bool().Draw(b.t, "not") {
 			b.sb.WriteString("NOT ")
 		}
@@ -601,10 +646,12 @@ func DrawStmt(t *rapid.T, tables []TableSpec, opt StmtOptions) Stmt {
 		b.sb.WriteString("INSERT INTO " + tn)
 		if withCols {
 			names := make([]string, len(cols))
+			quoted := make([]string, len(cols))
 			for i, c := range cols {
 				names[i] = c.Name
+				quoted[i] = Q(c.Name)
 			}
-			b.sb.WriteString(" (" + strings.Join(names, ", ") + ")")
+			b.sb.WriteString(" (" + strings.Join(quoted, ", ") + ")")
 			b.insCols = names
 		}
 		b.sb.WriteString(" VALUES ")
@@ -676,7 +723,7 @@ func DrawStmt(t *rapid.T, tables []TableSpec, opt StmtOptions) Stmt {
 		}
 		if kind == "upsert" {
 			b.sb.WriteString(" ON DUPLICATE KEY UPDATE ")
-			nonKey := tb.Cols[len(tb.PK):]
+			nonKey := b.usableCols(tb.Cols[len(tb.PK):])
 			n := rapid.IntRange(1, min(2, len(nonKey))).Draw(t, "upN")
 			for i := 0; i < n; i++ {
 				if i > 0 {
@@ -684,13 +731,13 @@ func DrawStmt(t *rapid.T, tables []TableSpec, opt StmtOptions) Stmt {
 				}
 				c := nonKey[(i+rapid.IntRange(0, len(nonKey)-1).Draw(t, "upCol"))%len(nonKey)]
 				b.setCols = append(b.setCols, c.Name)
-				b.sb.WriteString(c.Name + " = ")
+				b.sb.WriteString(Q(c.Name) + " = ")
 				switch rapid.IntRange(0, 2).Draw(t, "upExpr") {
 				case 0:
-					b.sb.WriteString("VALUES(" + c.Name + ")")
+					b.sb.WriteString("VALUES(" + Q(c.Name) + ")")
 				case 1:
 					if c.Base == "INT" || c.Base == "BIGINT" || c.Base == "SMALLINT" {
-						b.sb.WriteString(c.Name + " + 1")
+						b.sb.WriteString(Q(c.Name) + " + 1")
 						break
 					}
 					fallthrough
@@ -702,13 +749,13 @@ func DrawStmt(t *rapid.T, tables []TableSpec, opt StmtOptions) Stmt {
 		}
 	case "update":
 		b.sb.WriteString("UPDATE " + tn + " SET ")
-		nonKey := tb.Cols[len(tb.PK):]
+		nonKey := b.usableCols(tb.Cols[len(tb.PK):])
 		if len(tb.Rows) > 0 && rapid.IntRange(0, 9).Draw(t, "nearEqual") == 0 {
 			// a change that leaves the value "almost" what it was: only the letter case differs, or a trailing
 			// blank is added (values that compare equal under MySQL's default collations but are different data)
 			ri := rapid.IntRange(0, len(tb.Rows)-1).Draw(t, "nearRow")
 			for j, c := range tb.Cols {
-				if j < len(tb.PK) || (c.Base != "VARCHAR" && c.Base != "TEXT") || tb.Rows[ri][j].Kind != "str" {
+				if j < len(tb.PK) || (c.Base != "VARCHAR" && c.Base != "TEXT") || tb.Rows[ri][j].Kind != "str" || !b.usable(c) {
 					continue
 				}
 				old := tb.Rows[ri][j].S
@@ -728,7 +775,7 @@ func DrawStmt(t *rapid.T, tables []TableSpec, opt StmtOptions) Stmt {
 					continue
 				}
 				b.setCols = append(b.setCols, c.Name)
-				b.sb.WriteString(c.Name + " = ")
+				b.sb.WriteString(Q(c.Name) + " = ")
 				b.val(Lit{Kind: "str", S: flipped}, false)
 				b.sb.WriteString(" WHERE ")
 				for k, pk := range tb.PK {
@@ -761,9 +808,9 @@ func DrawStmt(t *rapid.T, tables []TableSpec, opt StmtOptions) Stmt {
 			}
 			first = false
 			b.setCols = append(b.setCols, c.Name)
-			b.sb.WriteString(c.Name + " = ")
+			b.sb.WriteString(Q(c.Name) + " = ")
 			if (c.Base == "INT" || c.Base == "BIGINT" || c.Base == "DECIMAL" || c.Base == "DOUBLE") && rapid.IntRange(0, 2).Draw(t, "arith") == 0 {
-				b.sb.WriteString(c.Name + rapid.SampledFrom([]string{" + 1", " - 1", " + 10"}).Draw(t, "arithOp"))
+				b.sb.WriteString(Q(c.Name) + rapid.SampledFrom([]string{" + 1", " - 1", " + 10"}).Draw(t, "arithOp"))
 				b.classes["arithmetic-set"] = true
 			} else {
 				b.val(drawValueFor(t, c, "set."+c.Name), false)
@@ -771,7 +818,7 @@ func DrawStmt(t *rapid.T, tables []TableSpec, opt StmtOptions) Stmt {
 		}
 		if !opt.NoKeyAssignment && rapid.IntRange(0, 11).Draw(t, "keyAssign") == 0 {
 			c := tb.col(tb.PK[0])
-			b.sb.WriteString(", " + c.Name + " = ")
+			b.sb.WriteString(", " + Q(c.Name) + " = ")
 			b.setCols = append(b.setCols, c.Name)
 			b.val(b.freshKey(tb, *c, 7), false)
 			b.classes["key-assignment"] = true
@@ -805,13 +852,14 @@ func dupInsert(t *rapid.T, tables []TableSpec) *Stmt {
 			continue
 		}
 		row := tb.Rows[rapid.IntRange(0, len(tb.Rows)-1).Draw(t, "dupRow")]
-		var cols, vals []string
+		var cols, qcols, vals []string
 		var args []Lit
 		for j, c := range tb.Cols {
 			if row[j].Kind == "default" {
 				continue
 			}
 			cols = append(cols, c.Name)
+			qcols = append(qcols, Q(c.Name))
 			if j < len(tb.PK) || row[j].Kind == "null" {
 				vals = append(vals, row[j].SQL())
 			} else {
@@ -819,7 +867,7 @@ func dupInsert(t *rapid.T, tables []TableSpec) *Stmt {
 				args = append(args, row[j])
 			}
 		}
-		return &Stmt{Kind: "insert", Table: ti, SQL: fmt.Sprintf("INSERT INTO {T%d} (%s) VALUES (%s)", ti, strings.Join(cols, ", "), strings.Join(vals, ", ")), Args: args, InsCols: cols, Classes: []string{"duplicate-key"}}
+		return &Stmt{Kind: "insert", Table: ti, SQL: fmt.Sprintf("INSERT INTO {T%d} (%s) VALUES (%s)", ti, strings.Join(qcols, ", "), strings.Join(vals, ", ")), Args: args, InsCols: cols, Classes: []string{"duplicate-key"}}
 	}
 	return nil
 }
